@@ -18,7 +18,7 @@ def fa_scenario(rng, tier, jfa=None, sessions=None):
     Dd = rng.uniform(0.3, 1.5, size=C * D)
     ns = int(rng.integers(1, 6)) if sessions is None else sessions
     return dict(C=C, D=D, rU=rU, rV=rV, jfa=jfa, w=w, m=m, v=v, U=U, V=V, Dd=Dd, sts=[rand_stat(rng, C, D, m, v) for _ in range(ns)],
-                route=pick_route(rng))
+                route=pick_route(rng), np_ints=bool(rng.random() < 0.3), layout=["C", "C", "F", "strided"][int(rng.integers(0, 4))])
 
 
 def rand_stat(rng, C, D, m, v, zero=False):
@@ -31,7 +31,17 @@ def rand_stat(rng, C, D, m, v, zero=False):
 
 
 def mk_stats(sc, st):
-    return gen.mk_stats(sc["C"], sc["D"], st["n"], st["f"], np.zeros((sc["C"], sc["D"])), st["t"])
+    g = gen.mk_stats(sc["C"], sc["D"], st["n"], st["f"], np.zeros((sc["C"], sc["D"])), st["t"])
+    n = np.asarray(st["n"])
+    if sc.get("layout") == "F":  # the same first-order statistics in another memory layout (e.g. computed as (x.T @ resp).T)
+        g.sum_px = np.asfortranarray(g.sum_px)
+    elif sc.get("layout") == "strided":
+        big = np.zeros((sc["C"], 2 * sc["D"]))
+        big[:, ::2] = g.sum_px
+        g.sum_px = big[:, ::2]
+    if sc.get("int_counts") and np.all(n == np.rint(n)):
+        g.n = n.astype(np.int64)  # hard-assignment counts stored as an integer-typed array (same values)
+    return g
 
 
 ROUTES = ("fresh", "fresh", "reuse_all", "reuse_ubm", "reuse_subspaces")
@@ -63,6 +73,8 @@ def mk_machine(sc, enroll_iterations=1, em_iterations=1):
     from bob.learn.em import ISVMachine, JFAMachine
 
     route = sc.get("route", "fresh")
+    if sc.get("np_ints"):  # option values given as NumPy integers (e.g. taken from an array of settings) instead of Python ints
+        enroll_iterations, em_iterations = np.int64(enroll_iterations), np.int64(em_iterations)
     rng = np.random.default_rng(12345)
     w, m, v = (np.array(sc[k], dtype=float) for k in ("w", "m", "v"))
     U, V, Dd = (np.array(sc[k], dtype=float) for k in ("U", "V", "Dd"))
